@@ -52,6 +52,18 @@ CLAIMED = {
         note='Trusted: rustc MIR; std iterator adaptor semantics (take/chain/once). Unwind paths ignored.',
         technique='static analysis: who-may-call, dominance (must-pass-through), who-reads/writes, comparison normal-form extraction on resolved MIR',
         design='2/C08'),
+    'C07': dict(
+        level='other',
+        text='A complete flag-provenance argument on resolved MIR over all bodies of the crate: TailCall is constructed once, under '
+             'tail flag ∧ callee is the local recursion cell; inside eval the flag flows only to that test and the Call-arm dispatch; every '
+             'evaluation performed under a non-false flag (19 sites) has its result returned unchanged by its caller (never unwrapped, matched or '
+             'stored), the flag being the caller\'s own parameter applied to its own scope and argument slice; the trampoline consumes TailCall by '
+             'looping; eval_func_with_values cannot hand its flag to user code; every documented short-circuit parameter that is returned unchanged '
+             'is evaluated with the flag (so tail self-calls under carriers consume no depth). Together: a TailCall is produced only for a self-call '
+             'in tail position and is consumed only by the trampoline of that same function. NOT decided by execution: numeric equality of results.',
+        note='Trusted: rustc MIR; the book as the list of documented short-circuit functions. Literal-true flag sites are listed with reasons in rules/c07.py.',
+        technique='static analysis: flag/value provenance dataflow, dominating-condition extraction, forward result-flow (tail-position) check on resolved MIR',
+        design='2/C07'),
 }
 
 NA_REASONS = {
